@@ -48,8 +48,19 @@ Definition df_decode_rows (rows : list dfrow) : list dchain :=
 Definition df_decode_bond (b : nat * nat * nat * nat) : dbond :=
   let '(i, j, q, o) := b in (i, j, q_btype q, match o with 0 => None | _ => Some o end).
 
-Definition df_round (v : vtop) : list dchain * list dbond :=
-  (df_decode_rows (df_rows v), map df_decode_bond (df_bonds v)).
+(* pandas: a "serial" column holding both numbers and None becomes a float column in which None
+   is NaN; as found from_dataframe puts that NaN into the atom *)
+Definition df_nanify (rows : list dfrow) : list dfrow :=
+  let has_num := existsb (fun r => match df_serial r with Some _ => true | None => false end) rows in
+  let has_none := existsb (fun r => match df_serial r with Some _ => false | None => true end) rows in
+  if has_num && has_none
+  then map (fun r => {| df_serial := match df_serial r with Some s => Some s | None => Some nan_serial end;
+                        df_name := df_name r; df_elem := df_elem r; df_resSeq := df_resSeq r; df_resName := df_resName r;
+                        df_chainID := df_chainID r; df_seg := df_seg r |}) rows
+  else rows.
+
+Definition df_round (keep_none : bool) (v : vtop) : list dchain * list dbond :=
+  (df_decode_rows (if keep_none then df_rows v else df_nanify (df_rows v)), map df_decode_bond (df_bonds v)).
 
 (* ------------------------------------------------------------------ HDF5 topology JSON *)
 (* the JSON holds: chain index; residue index, name, resSeq, segmentID; atom index, name, element;
@@ -162,8 +173,11 @@ Definition pdb_footer (fl : flags) (ter : bool) (h : heap) (t : topo) (written :
         if f_conect_num fl
         then combine (concat chains) (map Z.to_nat written)
         else footer_numbers ter chains 0 in
-      pairs <- mapM (fun b => i <- dict_get h numbering (b_a1 b) None ;; j <- dict_get h numbering (b_a2 b) None ;;
-                              Some (Z.of_nat i, Z.of_nat j)) conect ;;
+      let pair_of := fun b => i <- dict_get h numbering (b_a1 b) None ;; j <- dict_get h numbering (b_a2 b) None ;;
+                              Some (Z.of_nat i, Z.of_nat j) in
+      (* as found: atomIndex[atom] raises KeyError for an atom that is not in the topology; the repair
+         lists only bonds whose two atoms were written *)
+      pairs <- (if f_conect_num fl then Some (somes (map pair_of conect)) else mapM pair_of conect) ;;
       let m := fold_left (fun m p => assoc_add (snd p) (fst p) (assoc_add (fst p) (snd p) m)) pairs [] in
       let m := sort_by (fun x y => Z.leb (fst x) (fst y)) m in
       Some (concat (map (fun kv => conect_lines (if f_conect_del fl then 3 else 4) (length (snd kv)) (fst kv) (snd kv)) m))
@@ -175,6 +189,9 @@ Definition no_empty_residue (v : vtop) : bool :=
 Definition pdb_write (fl : flags) (ter : bool) (h : heap) (t : topo) : option (list pdbrec) :=
   v <- abs h t ;;
   if negb (no_empty_residue v) then None else          (* guard of the runs: TER after an empty residue *)
+  (* "%5d" % (nan % 100000) raises ValueError: a single-chain topology writes atom.serial *)
+  if (length (vt_chains v) <? 2) && existsb (fun a => match va_serial a with Some s => Z.eqb s nan_serial | None => false end) (v_atoms v)
+  then None else
   let '(recs, written) := pdb_atoms_chains (length (vt_chains v) <? 2) ter (vt_chains v) 0 1 in
   foot <- pdb_footer fl ter h t written ;;
   Some (recs ++ foot).
